@@ -123,7 +123,10 @@ def plant(rng, host, what):
             if rng.chance(0.3):
                 # perfectly good parameter names that tooling sometimes treats specially: soft keywords, builtins' names,
                 # underscore-only and dunder-like names, mixed case, digits
-                exotic = [n for n in ['type', 'match', 'case', '_', '__', 'id', 'list', 'print', 'Name', 'x1', '_private', '__dunder__', 'self_']
+                exotic = [n for n in ['type', 'match', 'case', '_', '__', 'id', 'list', 'print', 'Name', 'x1', '_private', '__dunder__', 'self_',
+                                      # names outside ASCII, also ones that Unicode normalisation (NFKC, NFC) would respell:
+                                      # the same spelling offered twice is the same name offered twice
+                                      'x\ufb01', 'a\u00b5', 't\u212a', 'x\uff11', 'caf\u00e9', 'n\u00e4me', 'x\u65e5']   # (no combining marks: a URL binding name is [A-Za-z_]\\w*)
                           if n not in offered_names(cfg) and n not in used_names(cfg)]
                 if exotic:
                     name = rng.pick(exotic)
